@@ -576,6 +576,11 @@ def _(c):
     c.use_modular()
 
 
+def deferred_domain_of(st, cmd, gcode):
+    from contracts.deferred import deferred_domain
+    return deferred_domain(st, cmd, upper_of(gcode) if gcode is not None else None)
+
+
 def upper_of(g):
     if isinstance(g, str):
         return g.upper()
@@ -586,7 +591,7 @@ def upper_of(g):
 @contract(H + "handleGcode")
 def _(c):
     def pre(b):
-        st = mk_motion_state(b)
+        st = mk_motion_state(b, extended=b.gcode_table())
         h = mk_handlers(b, st)
         g = {"P": mk_printer(b)}
         k = b.choose(len(HANDLED) + 2, "gcode")
@@ -603,6 +608,7 @@ def _(c):
     c.pre(pre)
     c.requires("Inv", lambda f: inv_all(f.self.state, f.g["P"]))
     c.requires("I-E", lambda f: inv_e(f.self.state, f.g["P"]))
+    c.requires("deferred-table-domain", lambda f: deferred_domain_of(f.self.state, f.a.cmd, f.a.gcode))
 
     def dispatch(f):
         cs = calls(f)
